@@ -37,7 +37,7 @@ DetrendCheck ==
       near(a, b) == Len(a) = n /\ \A j \in 1..n : Close(a[j], b[j], tol)
       \* (d+1)-th differences of a degree-d polynomial vanish; rounding is amplified by 2^(d+1)
   IN IF Len(R.y) # n THEN {"LengthDtPreserved"}
-     ELSE Fails(n <= d + 1 \/ \A j \in 1..(n - d - 1) : Close(Diff(diff, d + 1)[j], Zero, FMul(tol, FInt(32))), "DetrendIsPoly")
+     ELSE Fails(n <= d + 1 \/ (LET dd == Diff(diff, d + 1) IN \A j \in 1..(n - d - 1) : Close(dd[j], Zero, FMul(tol, FInt(32)))), "DetrendIsPoly")
           \cup Fails(\A p \in 0..d : Close(Moment(R.y, p), Zero, FMul(tol, FInt(n))), "DetrendOrthogonal")
           \cup Fails(near(R.y2, R.y), "DetrendIdempotent")
           \cup Fails(Len(R.yp) = n /\ \A j \in 1..n : Close(R.yp[j], R.y[j], FMul(FStr("1e-7"), FAdd(sc, R.pscale))), "DetrendPolyInvariant")
